@@ -93,6 +93,8 @@
 //!  t-cdisc <k> | t-ctdisc <k> | t-sdisc <id> | t-sdiscall   -> ok
 //!  t-stray <k> <i>            -> ok | err:noitem | err:noclient   item i of slot k's down queue is sent to the client's socket
 //!                                              from the relay's BACK socket (not the client's server address): discarded
+//!  t-junk <k|x> <len>         -> ok        <len> zero bytes (0 = an EMPTY datagram) reach the server socket from slot k's relay back
+//!                                              socket (what the server knows as that client's address) or from a stranger
 //!  t-setmax <n>               -> ok        NetcodeServerTransport::set_max_clients
 //!  t-acc                      -> acc max=<n> pub=<count>:<addresses() = front sockets 0|1> s<id>=<idle ns|->.. c<k>=<client_id>:<addr() ok>:<idle ns>..
 //!        (server transport: max_clients, addresses, time_since_last_received_packet per known id; client transports:
@@ -290,6 +292,8 @@ struct Inner {
     slots: Vec<Slot>,
     sentinel: UdpSocket,
     sentinel_addr: SocketAddr,
+    /// a socket that belongs to nobody (hostile datagrams from an unknown address)
+    stranger: UdpSocket,
     ids: Vec<u64>,
     /// server events in the canonical order in which `t-ev` hands them out
     evq: std::collections::VecDeque<String>,
@@ -534,6 +538,10 @@ impl World for TWorld {
                 Some(x) => x,
                 None => return "err:bind".into(),
             };
+            let stranger = match bind() {
+                Some(x) => x.0,
+                None => return "err:bind".into(),
+            };
             let mut key = [0u8; 32];
             for (i, b) in key.iter_mut().enumerate() {
                 *b = (i as u8).wrapping_mul(37).wrapping_add(11);
@@ -561,6 +569,7 @@ impl World for TWorld {
                 slots,
                 sentinel,
                 sentinel_addr,
+                stranger,
                 ids: vec![],
                 evq: Default::default(),
             };
@@ -846,6 +855,25 @@ impl World for TWorld {
                     }
                 }
             }
+            "t-junk" if t.len() == 3 => {
+                // a junk datagram (zeros, any length incl. 0) reaches the server socket from a client's relay address or
+                // from a stranger
+                let len = num!(t[2], usize);
+                if len > 4000 {
+                    return BAD.into();
+                }
+                let data = vec![0u8; len];
+                if t[1] == "x" {
+                    send_confirm(&w.stranger, w.server_addr, &w.server_probe, &data);
+                } else {
+                    let k = num!(t[1], usize);
+                    match w.slots.get(k) {
+                        Some(s) => send_confirm(&s.back, w.server_addr, &w.server_probe, &data),
+                        None => return BAD.into(),
+                    }
+                }
+                "ok".into()
+            }
             "t-setmax" if t.len() == 2 => {
                 let n = num!(t[1], usize);
                 w.st.set_max_clients(n);
@@ -995,6 +1023,9 @@ struct Drv<'a> {
     /// the server application streams: one small unreliable message per tick to every id the message layer holds,
     /// dead or alive (the game-server pattern; every such datagram refreshes the server's last-send time)
     stream: bool,
+    /// while a slot is blackholed the relay replays that session's very first datagram (its connection request) towards
+    /// the server about once per second of virtual time
+    replay_req: bool,
 }
 
 impl<'a> Drv<'a> {
@@ -1022,6 +1053,7 @@ impl<'a> Drv<'a> {
             },
             slow_until: 0,
             stream: false,
+            replay_req: false,
         };
         for k in 0..n {
             d.id[k] = Some(100 + k as u64);
@@ -1184,10 +1216,54 @@ impl<'a> Drv<'a> {
             self.x(&format!("t-fwdall {}", dn));
         }
     }
-    fn round_lossless(&mut self, rng: &mut Rng, dt: u64, traffic: u64) {
+    /// one client sends a small reliable message; junk datagrams (empty, 1 byte, oversized) from ANOTHER client's address
+    /// or from a stranger reach the server socket ahead of it; all of it is handed over before one server update: the
+    /// message is there after that update
+    fn junk_probe(&mut self, rng: &mut Rng, dt: u64) {
+        let cands: Vec<usize> = self
+            .live_slots()
+            .into_iter()
+            .filter(|k| match (self.id[*k], self.st.cl.get(k)) {
+                (Some(id), Some(c)) => c.0 == id && c.1 == "connected" && self.st.rc.contains(&id),
+                _ => false,
+            })
+            .collect();
+        if cands.is_empty() {
+            return;
+        }
+        let k = rng.pick(&cands);
+        let id = self.id[k].unwrap_or(0);
+        self.ctr = self.ctr.wrapping_add(1);
+        let m = format!("{:04x}{}", self.ctr, hex(&rng.payload(5)));
+        if self.x(&format!("t-send c{} 1 {}", k, m)) != "ok" || self.x(&format!("t-csend {}", k)) != "ok" {
+            return;
+        }
+        let others: Vec<String> = (0..self.nslots).filter(|j| *j != k).map(|j| j.to_string()).chain(std::iter::once("x".to_string())).collect();
+        for _ in 0..rng.range(1, 3) {
+            let len = rng.pick(&[0usize, 0, 0, 1, 17, 2000]);
+            self.x(&format!("t-junk {} {}", rng.pick(&others), len));
+        }
+        self.x(&format!("t-fwdn up {}", k));
         self.tick += 1;
         self.now_us += dt;
+        self.x(&format!("t-supd {}", dt));
+        self.events_and_state();
+        self.x(&format!("t-recvall s{} 1", id));
+        self.x("t-ssend");
+        self.fwd_lossless(DOWN);
+    }
+    fn round_lossless(&mut self, rng: &mut Rng, dt: u64, traffic: u64) {
+        self.tick += 1;
+        let before = self.now_us / 1_000_000;
+        self.now_us += dt;
         self.clients_part(rng, dt, traffic);
+        if self.replay_req && self.now_us / 1_000_000 != before {
+            for k in 0..self.nslots {
+                if self.hole[k] && self.id[k].is_some() {
+                    self.x(&format!("t-fwd up {} 0", k));
+                }
+            }
+        }
         self.fwd_lossless(UP);
         self.server_part(rng, dt, traffic);
         self.fwd_lossless(DOWN);
@@ -1356,7 +1432,11 @@ fn script_lossless(rng: &mut Rng, _tier: Tier, ex: &mut dyn FnMut(&str) -> Strin
     for _ in 0..rng.range(2, 5) {
         d.round_lossless(rng, dt, 2);
         d.reads(rng, false);
+        if rng.chance(1, 3) {
+            d.junk_probe(rng, dt);
+        }
     }
+    d.replay_req = rng.chance(1, 2);
     d.events_and_state();
     d.x("note heal-start");
     for _ in 0..3 {
@@ -1666,7 +1746,7 @@ pub fn profiles() -> Vec<Profile> {
     vec![
         Profile {
             name: "tp-lossless",
-            props: &["C20"],
+            props: &["C20", "C11"],
             cases: |t| tier_cases(t, 60, 600),
             new_world,
             script: script_lossless,
@@ -2535,6 +2615,71 @@ fn oracle_accessors(ops: &[String], outs: &[String]) -> Option<OracleFail> {
     None
 }
 
+/// (h) C11 / C20: junk from one peer never delays another one. Pattern, all consecutive ops of the trace:
+/// `t-send c<k> <ch> <m>` (ok) · `t-csend <k>` (ok) · one or more `t-junk <j|x> <len>` with j != k · `t-fwdn up <k>` (ok n, n >= 1)
+/// · `t-supd` · `t-ev`* · `t-state` · [`t-acc`] · `t-recvall s<id> <ch>` where the state says slot k holds id and renet
+/// reports id connected: everything that reached the server socket before the update was consumed by it, so <m> is
+/// among the messages obtained.
+fn oracle_junk_no_delay(ops: &[String], outs: &[String]) -> Option<OracleFail> {
+    let n = ops.len().min(outs.len());
+    let mut i = 0;
+    while i + 6 < n {
+        let t = toks(&ops[i]);
+        i += 1;
+        if t.len() != 4 || t[0] != "t-send" || !t[1].starts_with('c') || outs[i - 1] != "ok" {
+            continue;
+        }
+        let (k, ch, m) = (t[1][1..].to_string(), t[2].to_string(), t[3].to_string());
+        let mut j = i;
+        if ops[j] != format!("t-csend {}", k) || outs[j] != "ok" {
+            continue;
+        }
+        j += 1;
+        let mut junk = 0;
+        while j < n {
+            let u = toks(&ops[j]);
+            if u.len() == 3 && u[0] == "t-junk" && u[1] != k && outs[j] == "ok" {
+                junk += 1;
+                j += 1;
+            } else {
+                break;
+            }
+        }
+        if junk == 0 || j >= n || ops[j] != format!("t-fwdn up {}", k) {
+            continue;
+        }
+        let forwarded = outs[j].strip_prefix("ok ").and_then(|x| x.parse::<usize>().ok()).unwrap_or(0);
+        j += 1;
+        if forwarded == 0 || j >= n || !ops[j].starts_with("t-supd ") || outs[j] != "ok" {
+            continue;
+        }
+        j += 1;
+        while j < n && ops[j] == "t-ev" {
+            j += 1;
+        }
+        if j >= n || ops[j] != "t-state" {
+            continue;
+        }
+        let Some(st) = parse_state(&outs[j]) else { continue };
+        j += 1;
+        if j < n && ops[j] == "t-acc" {
+            j += 1;
+        }
+        let Some(id) = k.parse::<usize>().ok().and_then(|k| st.cl.get(&k)).map(|c| c.0) else { continue };
+        if !st.rc.contains(&id) || j >= n || ops[j] != format!("t-recvall s{} {}", id, ch) {
+            continue;
+        }
+        if !outs[j].split(' ').skip(2).any(|x| x == m) && outs[j].starts_with("msgs ") {
+            return fail(
+                j,
+                "junk-delayed-other-client",
+                format!("client slot {} (id {}) sent {} and its datagram(s) reached the server socket before the update, behind {} junk datagram(s) of other origin: the message was not there after the update (`{}`)", k, id, m, junk, if outs[j].len() > 60 { &outs[j][..60] } else { &outs[j] }),
+            );
+        }
+    }
+    None
+}
+
 /// (f) nothing unwinds
 fn oracle_no_panic(ops: &[String], outs: &[String]) -> Option<OracleFail> {
     for (i, o) in outs.iter().enumerate() {
@@ -2555,5 +2700,7 @@ pub fn oracles() -> Vec<Oracle> {
         Oracle { prop: "C20", name: "tp-no-spurious-end", engines: &["tp-"], check: oracle_no_spurious_end },
         Oracle { prop: "C20", name: "tp-no-panic", engines: &["tp-"], check: oracle_no_panic },
         Oracle { prop: "C20", name: "tp-accessors", engines: &["tp-"], check: oracle_accessors },
+        Oracle { prop: "C20", name: "tp-junk-no-delay", engines: &["tp-"], check: oracle_junk_no_delay },
+        Oracle { prop: "C11", name: "tp-junk-no-delay", engines: &["tp-"], check: oracle_junk_no_delay },
     ]
 }
